@@ -44,7 +44,7 @@ class ThreadedFactory:
         for obj in self._objects:
             try:
                 self.teardown_object(obj)
-            except Exception as excp:
+            except BaseException as excp:
                 # a failing teardown must not prevent the objects of the other threads from being torn down
                 if first_exception is None:
                     first_exception = excp
